@@ -176,11 +176,18 @@ C10ReqOk(e, pre, x, r) ==
 \* the remembered value is judged here, so that a wrong one is never adopted silently
 HintOk(e, x, r) == (e.op = "ireq" /\ r.hasPost /\ x.out.k = "ok" /\ r.out.k = "ok") => r.post.b2 = x.st.b2
 
+\* C09: "its response carries the Block1 acknowledgement" - the acknowledgement intercept_request placed
+\* on the prepared reply is still there after intercept_response, also when the reply leaves in blocks
+AckKept(e, r) ==
+  LET app == OptMsg(e.app) IN
+  (e.op = "iresp" /\ app.some /\ HasEntry(app.v.opts, OPT_BLOCK1) /\ r.out.k = "ok") =>
+     (r.resp.some /\ ValsOf(r.resp.v.opts, OPT_BLOCK1) = ValsOf(app.v.opts, OPT_BLOCK1))
+
 Violated(e, pre, x, r) ==
   LET hadResp == IF e.op = "ireq" THEN NewResponse(MsgOf(e.req)).some ELSE e.app.some IN
   (IF C11Ok(e, pre, r, hadResp) THEN {} ELSE {"C11"})
   \cup (IF C12Ok(e, r) THEN {} ELSE {"C12"})
-  \cup (IF r.out.k = "panic" \/ C09Ok(e, pre, x, r) THEN {} ELSE {"C09"})
+  \cup (IF r.out.k = "panic" \/ (C09Ok(e, pre, x, r) /\ AckKept(e, r)) THEN {} ELSE {"C09"})
   \cup (IF r.out.k = "panic" \/ C08ReqOk(e, pre, x, r) THEN {} ELSE {"C08"})
   \cup (IF r.out.k = "panic" \/ RespOk(e, pre, x, r) THEN {} ELSE {"C08", "C10"})
   \cup (IF r.out.k = "panic" \/ C10ReqOk(e, pre, x, r) THEN {} ELSE {"C10"})
